@@ -234,7 +234,9 @@ META = {
                  "(file, fn, field, op, Ordering) and the load/wake/register call order of 15 functions are re-extracted and must equal the "
                  "proved table (a weakened ordering breaks an obligation, and a bounded search of the machine then yields a failing schedule); "
                  "the same step programs run single-threaded against the real channel; the crate's own loom scenarios run on the real code as "
-                 "bounded support."),
+                 "bounded support. Socket tasks (s2n-quic-platform task/tx.rs, task/rx.rs): for every sequence of ring / socket events inside one "
+                 "poll call, each release_no_wake is followed by ring.wake() before the call returns (socket_task_no_lost_wakeup, both missing-wake "
+                 "variants refuted); the two wake sites and the release / flag / return counts are re-read from the source and bridged."),
         "note": ("The theorem is about an RA semantics we define (SeqCst as AcqRel, no SC fences, no consume, no out-of-thin-air), not the full "
                  "C11 model; AtomicWaker is assumed linearizable; sync/cursor.rs data path, socket/ring.rs and wakeup_queue.rs are covered only "
                  "through the abstract handshake and the ordering bridge; loom is bounded model checking and is never counted as proof."),
